@@ -31,8 +31,16 @@ type checkDef struct {
 	Harness    string // directory under /verif/h
 	Instrument bool
 	Access     bool // also instrument field / map accesses (C09)
+	// Stages are further harnesses of the same check; their evidence is merged into the main one under Key.
+	Stages []stageDef
 	Tags       string
 	Args       []string
+}
+
+type stageDef struct {
+	Harness    string
+	Instrument bool
+	Key        string
 }
 
 func fatal(code int, f string, a ...any) {
@@ -236,7 +244,26 @@ func run(scratch string) int {
 		bin := build(scratch, def.Harness, def.Instrument, def.Tags, false)
 		fmt.Fprintf(os.Stderr, "vcheck: built %s in %.1fs\n", def.Harness, time.Since(t0).Seconds())
 		args := append([]string{"-id", id, "-tier", tier, "-verif", verif, "-build-s", fmt.Sprintf("%.1f", time.Since(t0).Seconds())}, def.Args...)
-		return execBin(bin, args, scratch)
+		code := execBin(bin, args, scratch)
+		if code > 1 {
+			return code
+		}
+		for i, st := range def.Stages {
+			accessMode = false
+			sbin := build(scratch, st.Harness, st.Instrument, def.Tags, false)
+			evname := fmt.Sprintf("%s.stage%d", id, i+2)
+			c2 := execBin(sbin, []string{"-id", id, "-tier", tier, "-verif", verif, "-evname", evname}, scratch)
+			if c2 > 1 {
+				return c2
+			}
+			if c2 > code {
+				code = c2
+			}
+			if err := mergeEvidence(id, evname, st.Key); err != nil {
+				fatal(2, "ENGINE-ERROR: merging evidence of stage %s: %v", st.Harness, err)
+			}
+		}
+		return code
 	case "replay":
 		path := os.Args[2]
 		b, err := os.ReadFile(path)
@@ -245,6 +272,7 @@ func run(scratch string) int {
 		}
 		var r struct {
 			Property string `json:"property"`
+			Stage    string `json:"stage"`
 		}
 		if err := json.Unmarshal(b, &r); err != nil {
 			fatal(2, "%v", err)
@@ -254,12 +282,60 @@ func run(scratch string) int {
 			fatal(2, "unknown check %s", r.Property)
 		}
 		accessMode = def.Access
-		bin := build(scratch, def.Harness, def.Instrument, def.Tags, false)
+		harness, instr := def.Harness, def.Instrument
+		for i, st := range def.Stages {
+			if r.Stage == fmt.Sprintf("%s.stage%d", r.Property, i+2) {
+				harness, instr, accessMode = st.Harness, st.Instrument, false
+			}
+		}
+		bin := build(scratch, harness, instr, def.Tags, false)
 		args := append([]string{"-id", r.Property, "-replay", path, "-verif", verif}, def.Args...)
 		return execBin(bin, args, scratch)
 	}
 	fatal(2, "unknown command %s", os.Args[1])
 	return 2
+}
+
+// mergeEvidence folds the evidence of a further stage into the main evidence file.
+func mergeEvidence(id, evname, key string) error {
+	out := verif
+	if o := os.Getenv("VERIF_OUT"); o != "" {
+		out = o
+	}
+	mainPath := filepath.Join(out, "evidence", id+".json")
+	stagePath := filepath.Join(out, "evidence", evname+".json")
+	var m, st map[string]any
+	b, err := os.ReadFile(mainPath)
+	if err != nil {
+		return err
+	}
+	if err := json.Unmarshal(b, &m); err != nil {
+		return err
+	}
+	b, err = os.ReadFile(stagePath)
+	if err != nil {
+		return err
+	}
+	if err := json.Unmarshal(b, &st); err != nil {
+		return err
+	}
+	cov, _ := m["coverage"].(map[string]any)
+	cov[key] = map[string]any{"level": st["level"], "coverage": st["coverage"], "assumptions": st["assumptions"], "wall_s": st["wall_s"], "violations": st["violations"]}
+	if v, ok := st["violations"].(float64); ok {
+		if mv, ok := m["violations"].(float64); ok {
+			m["violations"] = mv + v
+		}
+	}
+	if w, ok := st["wall_s"].(float64); ok {
+		if mw, ok := m["wall_s"].(float64); ok {
+			m["wall_s"] = mw + w
+		}
+	}
+	nb, _ := json.MarshalIndent(m, "", " ")
+	if err := os.WriteFile(mainPath, nb, 0o644); err != nil {
+		return err
+	}
+	return os.Remove(stagePath)
 }
 
 func execBin(bin string, args []string, scratch string) int {
